@@ -242,7 +242,17 @@ func genAddrRe(p *pkg) (string, error) {
 	if !ok {
 		return "", fmt.Errorf("the body of the inner if is not a single for statement: %s", stmtLine(p.fset, innerIf))
 	}
-	guards := []string{stmtLine(p.fset, outerIf.Cond), stmtLine(p.fset, innerIf.Cond), stmtLine(p.fset, loop)}
+	// The two guards and the loop are printed as source text only when the
+	// generator PureFnIP did not translate these very nodes (then the text pin
+	// keeps guarding them); when it did, their meaning is the subject of
+	// Properties/C06P.v (C06P_ip_block) and the table names the translation.
+	guardText := func(n ast.Node) string {
+		if ph, ok := pfPlaceholder(p, n); ok {
+			return ph
+		}
+		return stmtLine(p.fset, n)
+	}
+	guards := []string{guardText(outerIf.Cond), guardText(innerIf.Cond), guardText(loop)}
 
 	// 3. every statement that mentions the variable or package regexp
 	var uses []addrUse
